@@ -17,6 +17,7 @@ import KadDHT.Driver.C06
 import KadDHT.Driver.C15
 import KadDHT.Driver.C16
 import KadDHT.Driver.C11
+import KadDHT.Driver.C12
 open KadDHT.Driver
 
 def main (args : List String) : IO UInt32 := do
@@ -24,6 +25,10 @@ def main (args : List String) : IO UInt32 := do
   | ["C18"] => runPure C18.handle; return 0
   | ["C18v"] => runPure C18v.handle; return 0
   | ["C19"] => runLoop C19.step {}; return 0
+  | ["C12"] => runLoop C12.step { self := 0 }; return 0
+  | ["C12v"] => runLoop C12.verdict {}; return 0
+  | ["C12r"] => runLoop C12.rStep {}; return 0
+  | ["C12rv"] => runLoop C12.rVerdict {}; return 0
   | ["C11"] => runLoop C11.step {}; return 0
   | ["C11v"] => runLoop C11.verdict (); return 0
   | ["C16"] => runPure C16.handle; return 0
